@@ -11,7 +11,7 @@ DTS = ["string", "integer", "boolean", "port-number", "byte-size", "time-interva
        "basic-key", "string-list", "inet-address", "null", "float", "zcvdt.marker", "ipaddr-or-hostname",
        "inet-binding-address", "socket-address", "dotted-name"]
 GOOD = {
-    "string": ["hello world", "x", "a  b", "$$cash", "#notcomment", "(paren)", "ünï"],
+    "string": ["hello world", "x", "a  b", "$$cash", "#notcomment", "(paren)", "ünï", "k=v a=b", "=x="],
     "null": ["anything", "x y"],
     "integer": ["0", "-12", "+7", "1_000", "99999999999999999999"],
     "boolean": ["yes", "No", "TRUE", "off", "On", "false"],
